@@ -16,6 +16,10 @@ From Coq Require Import NArith ZArith List Bool.
 From Clemens Require Import Base.Res Base.Word Pos.Types Pos.Position Eval.Eval Search.TT Search.Ordering
      Search.Negamax Search.SearchStruct Search.SearchLines Search.SearchRoot Search.SearchIter
      Search.GoInst Search.SearchGo Pos.Inv Pos.GenWords.
+From Clemens.C13Mate Require Import MateDefs MateSane MateRange.
+From Clemens.C13Bridge Require Import Bridge Seq.
+From Clemens.C04Null Require Import NullRoot NullGo.
+From Clemens.C05NoPanic Require Import NoPanicS.
 Import ListNotations.
 Open Scope Z_scope.
 
@@ -122,15 +126,92 @@ Proof.
 Qed.
 Print Assumptions C04_answer_is_last_info.
 
-(* (g) "only when no legal move exists does the engine answer with the null move".  NOT proved:
-   it needs the score-range invariant of table and cache ([sane]) and score reasoning. *)
-Definition C04_null_only_without_moves_statement (sane : sst -> Prop) : Prop :=
-  forall iters fuel s root req s',
-    sane s -> (req < 255)%N -> s_pv s = [] ->
-    go_search iters fuel true s root req = (ROk NULL_MOVE, s') ->
-    legal_moves go_keys root = Ok [].
+(* (g) "only when no legal move exists does the engine answer with the null move" (C04Null/NullRoot.v, NullGo.v).
+   [legal_pos root] = the C10 invariant and the material accounting of legal chess (both invariants of play);
+   [cache_sane]: no evaluation-cache entry is a mate value - NECESSARY (C04Null/NullExamples.v: one junk entry and
+   the engine answers the null move at a root with a legal move), true of the empty cache and preserved by every
+   search ([session]); nothing is assumed about the transposition table, the heuristics or the cancellation point;
+   [fuel <= 255]: the recursion stays within the range of Go's uint8 ply counter (by C05_fuel_irrelevant the
+   answer is then the same for every larger bound). *)
+Theorem C04_null_defs : forall K EC root U p m c,
+  (null_universe K EC root U <->
+     U root /\
+     (forall p m q, U p -> movable p m -> make_move K p m = Ok q -> is_legal q = Ok true -> U q) /\
+     (forall p q x, U p -> is_in_check p (side p) = Ok false -> make_null_move K p = Ok (q, x) -> U q) /\
+     (forall p, U p -> eval_sane_at EC p)) /\
+  (movable p m <-> exists g m0, (gen_moves p = Ok g \/ gen_captures p = Ok g) /\ In m0 g /\ mv_low m = mv_low m0) /\
+  (eval_sane_at EC p <-> (forall v, eval_raw EC p = Ok v -> is_checkmate_value EC v = false) /\
+                         (forall v, contempt EC p = Ok v -> is_checkmate_value EC v = false)) /\
+  (cache_sane EC c <-> forall slot, is_checkmate_value EC (snd (cache_lookup c slot)) = false) /\
+  (legal_pos p <-> Inv p /\ C15Bound.Material.material_ok p = true).
+Proof. exact NullGo.C04_null_defs. Qed.
+Print Assumptions C04_null_defs.
 
-(* what is proved of it, for arbitrary states: a null answer comes from the uncancellable depth-1
+Theorem C04_null_only_without_moves : forall root iters fuel rep s req s',
+  legal_pos root -> cache_sane go_econsts (s_cache s) -> (fuel <= 255)%nat ->
+  go_search iters fuel rep s root req = (ROk NULL_MOVE, s') ->
+  legal_moves go_keys root = Ok [].
+Proof. exact null_only_without_moves_legal. Qed.
+Print Assumptions C04_null_only_without_moves.
+
+(* a freshly started engine; any state reached by earlier searches from legal positions *)
+Theorem C04_null_only_without_moves_fresh : forall root iters fuel rep c req s',
+  legal_pos root -> (fuel <= 255)%nat ->
+  go_search iters fuel rep (go_empty_sst c) root req = (ROk NULL_MOVE, s') ->
+  legal_moves go_keys root = Ok [].
+Proof. exact null_only_without_moves_fresh. Qed.
+Print Assumptions C04_null_only_without_moves_fresh.
+
+Theorem C04_null_only_without_moves_session : forall root roots iters fuel rep s req s',
+  session roots s -> legal_pos root -> (fuel <= 255)%nat ->
+  go_search iters fuel rep s root req = (ROk NULL_MOVE, s') ->
+  legal_moves go_keys root = Ok [].
+Proof. exact null_only_without_moves_session. Qed.
+Print Assumptions C04_null_only_without_moves_session.
+
+(* the answer IS one of the legal moves whenever there is one ... *)
+Theorem C04_answer_is_legal_move : forall root iters fuel rep s req m s' l,
+  legal_pos root -> cache_sane go_econsts (s_cache s) ->
+  (fuel <= 255)%nat -> (req < 255)%N -> s_pv s = [] ->
+  legal_moves go_keys root = Ok l -> l <> [] ->
+  go_search iters fuel rep s root req = (ROk m, s') ->
+  m <> NULL_MOVE /\ In (mv_low m) l.
+Proof. exact answer_is_legal_move. Qed.
+Print Assumptions C04_answer_is_legal_move.
+
+(* ... and the null move exactly when there is none *)
+Theorem C04_null_iff_no_moves : forall root iters fuel rep s req m s',
+  legal_pos root -> cache_sane go_econsts (s_cache s) ->
+  (fuel <= 255)%nat -> (req < 255)%N -> s_pv s = [] ->
+  go_search iters fuel rep s root req = (ROk m, s') ->
+  (m = NULL_MOVE <-> legal_moves go_keys root = Ok []).
+Proof. exact null_iff_no_moves. Qed.
+Print Assumptions C04_null_iff_no_moves.
+
+(* (h) the search does not crash: on a legal root NO call of the search returns a Go panic as long as the
+   1024-entry repetition stack has room for the nesting of the calls - for every state of the shared tables,
+   heuristics, PV and cancellation oracle (C05NoPanic/*.v).  The stack hypothesis is necessary
+   (C05_full_stack_panics).  Together with termination: an answer is always produced. *)
+Theorem C04_search_no_panic : forall iters f rep s root req,
+  legal_pos root -> (List.length (s_hist s) + f <= 1024)%nat ->
+  fst (go_search iters f rep s root req) <> RPanic.
+Proof. exact go_search_no_panic_gen. Qed.
+Print Assumptions C04_search_no_panic.
+
+Theorem C04_search_answers : forall (U : position -> Prop) (cb : position -> nat),
+  (forall p m q, U p -> movable p m -> make_move go_keys p m = Ok q -> is_legal q = Ok true ->
+     U q /\ (cb q <= cb p)%nat /\ (is_in_check p (side p) = Ok true -> (cb q < cb p)%nat)) ->
+  (forall p q x, U p -> is_in_check p (side p) = Ok false -> make_null_move go_keys p = Ok (q, x) ->
+     U q /\ (cb q <= cb p)%nat) ->
+  forall iters f s root req,
+  legal_pos root -> U root -> (req < 255)%N -> (510 <= iters)%nat ->
+  (N.to_nat (N.max 1 (req_to_depth go_sconsts req)) + cb root + 258 <= f)%nat ->
+  (List.length (s_hist s) + N.to_nat (N.max 1 (req_to_depth go_sconsts req)) + cb root + 1 <= 1024)%nat ->
+  exists m s', go_search iters f true s root req = (ROk m, s').
+Proof. exact go_search_answers_ranked. Qed.
+Print Assumptions C04_search_answers.
+
+(* what holds of a null answer for ARBITRARY states (no hypothesis at all): it comes from the uncancellable depth-1
    full-window search, whose line then begins with a generated, made, legal move equal to the null
    word, or is empty with the root's contempt value as score, or (repaired test) is empty with a
    score not strictly inside (-INF, INF) *)
